@@ -8,7 +8,9 @@ from __future__ import annotations
 import sys
 
 TOOL = 4
-PREFIX = "/repo/sqlglot"
+from vlib.paths import SQLGLOT
+
+PREFIX = SQLGLOT
 
 
 class BudgetExceeded(BaseException):
